@@ -1182,8 +1182,16 @@ func (gs *GossipSubRouter) handleGraft(p peer.ID, ctl *pb.ControlMessage) []*pb.
 		return nil
 	}
 
+	// one PRUNE per topic, however often the peer repeated its GRAFT in this RPC: the number
+	// of GRAFTs in a frame is not bounded, and a reply with one PRUNE for each of them can be
+	// larger than the frame that caused it and very expensive to split into fragments
 	cprune := make([]*pb.ControlPrune, 0, len(prune))
+	answered := make(map[string]struct{}, len(prune))
 	for _, topic := range prune {
+		if _, dup := answered[topic]; dup {
+			continue
+		}
+		answered[topic] = struct{}{}
 		cprune = append(cprune, gs.makePrune(p, topic, doPX, false))
 	}
 
